@@ -357,11 +357,112 @@ pub fn c03_unaltered_sweep(rng: &mut Rng, tier: &str, out: &mut Out) {
     }
 }
 
+/// A source whose bytes can be altered while a reader holds it (a file on a shared medium).
+struct SharedSrc {
+    data: std::sync::Arc<std::sync::Mutex<Vec<u8>>>,
+    pos: u64,
+}
+impl Read for SharedSrc {
+    fn read(&mut self, buf: &mut [u8]) -> std::io::Result<usize> {
+        let d = self.data.lock().unwrap();
+        let p = (self.pos as usize).min(d.len());
+        let n = buf.len().min(d.len() - p);
+        buf[..n].copy_from_slice(&d[p..p + n]);
+        self.pos += n as u64;
+        Ok(n)
+    }
+}
+impl std::io::Seek for SharedSrc {
+    fn seek(&mut self, s: std::io::SeekFrom) -> std::io::Result<u64> {
+        let len = self.data.lock().unwrap().len() as i128;
+        let t = match s {
+            std::io::SeekFrom::Start(n) => n as i128,
+            std::io::SeekFrom::Current(d) => self.pos as i128 + d as i128,
+            std::io::SeekFrom::End(d) => len + d as i128,
+        };
+        if t < 0 {
+            return Err(std::io::Error::new(std::io::ErrorKind::InvalidInput, "negative position"));
+        }
+        self.pos = t as u64;
+        Ok(self.pos)
+    }
+}
+
+/// Alteration WHILE a reader is open: every file is read once intact, then one bit of the stored archive is
+/// flipped (each chunk in turn) and the same reader reads every file again: every byte it returns must be
+/// the original byte (or the read must fail) - a chunk that verified once is not trusted the second time.
+fn c03_alter_while_open(rng: &mut Rng, tier: &str, out: &mut Out) {
+    let n = if tier == "thorough" { 12 } else { 4 };
+    for (ai, (plan, built, _)) in c03_archives(rng, tier).iter().take(n).enumerate() {
+        let hl = built.header_len;
+        let body = built.bytes.len() - hl;
+        let nch = (body + CTS - 1) / CTS;
+        let mut msg: Option<String> = None;
+        for j in 0..nch {
+            let shared = std::sync::Arc::new(std::sync::Mutex::new(built.bytes.clone()));
+            let r = catch(|| -> Result<(), String> {
+                let mut cfg = mla::config::ArchiveReaderConfig::new();
+                cfg.add_private_keys(&built.privs);
+                let mut rd = mla::ArchiveReader::from_config(SharedSrc { data: shared.clone(), pos: 0 }, cfg).map_err(|e| format!("open: {e:?}"))?;
+                let read_all = |rd: &mut mla::ArchiveReader<SharedSrc>, pass: u8| -> Result<(), String> {
+                    for (i, name) in plan.names.iter().enumerate() {
+                        let nm = String::from_utf8_lossy(name).into_owned();
+                        let Ok(Some(mut f)) = rd.get_file(nm) else {
+                            if pass == 0 { return Err(format!("file {i} cannot be opened on the unaltered archive")); }
+                            continue;
+                        };
+                        let mut got = Vec::new();
+                        let mut buf = [0u8; 37];
+                        loop {
+                            match f.data.read(&mut buf) {
+                                Ok(0) => break,
+                                Ok(k) => got.extend_from_slice(&buf[..k]),
+                                Err(_) => {
+                                    if pass == 0 { return Err(format!("file {i}: read error on the unaltered archive")); }
+                                    break;
+                                }
+                            }
+                        }
+                        if !built.contents[i].starts_with(&got) || (pass == 0 && got != built.contents[i]) {
+                            return Err(format!("file {i}: a byte returned on pass {pass} differs from the original"));
+                        }
+                    }
+                    Ok(())
+                };
+                read_all(&mut rd, 0)?;
+                {
+                    let mut d = shared.lock().unwrap();
+                    let at = hl + j * CTS + (j * 7) % (CTS.min(body - j * CTS).saturating_sub(TAG).max(1));
+                    d[at] ^= 0x10;
+                }
+                read_all(&mut rd, 1)
+            });
+            match r {
+                Ok(Ok(())) => {}
+                Ok(Err(e)) => { msg = Some(format!("one bit of chunk {j} altered after the reader had read the archive once: {e}")); break; }
+                Err(p) => { msg = Some(format!("panic: {p}")); break; }
+            }
+        }
+        out.case(&Case {
+            id: format!("c03-alter-while-open-{ai}"),
+            model_fn: "",
+            args: vec![],
+            imp: json!([]),
+            oracle_ok: msg.is_none(),
+            oracle_msg: msg.unwrap_or_default(),
+            class: format!("layers={} altered-while-open", plan.layers),
+            nontrivial: true,
+            meta: json!({"archive": ai, "chunks": nch, "layers": plan.layers}),
+        });
+    }
+}
+
 pub fn c03_cases(rng: &mut Rng, tier: &str, out: &mut Out) {
     let model_stride = if tier == "thorough" { 61 } else { 19 };
     let mut counter = 0usize;
     if cfg!(feature = "scaled") {
         c03_unaltered_sweep(rng, tier, out);
+        c03_alter_while_open(rng, tier, out);
     }
     for (ai, (plan, built, akind)) in c03_archives(rng, tier).iter().enumerate() {
         // the unaltered archive must open and give everything back
